@@ -425,7 +425,7 @@ def emit_abi(syms, released):
     o.append("end Xc.Gen\n")
     return "\n".join(o)
 
-def generate(outdir, repo=cbuild.REPO, scratch=None, objs=None, with_abi=False):
+def generate(outdir, repo=cbuild.REPO, scratch=None, objs=None, with_abi=False, with_statics=False):
     own = scratch is None
     d = scratch or cbuild.mk_scratch("gen")
     try:
@@ -454,6 +454,10 @@ def generate(outdir, repo=cbuild.REPO, scratch=None, objs=None, with_abi=False):
         if with_abi or not os.path.exists(abi_ref):
             released = json.load(open(os.path.join(os.path.dirname(os.path.abspath(__file__)), "..", "ref", "released-4.4.33.json")))
             files["Abi.lean"] = emit_abi(abi_facts(d, repo), released)
+        st_ref = os.path.join(outdir, "Statics.lean")
+        if with_statics or not os.path.exists(st_ref):
+            import statics
+            files["Statics.lean"] = statics.emit_lean(d, repo)[0]
         for k, s in files.items():
             p = os.path.join(outdir, k)
             if not os.path.exists(p) or open(p).read() != s:
